@@ -71,7 +71,8 @@ func VerifC20_History() {
 	}
 	vrt.Bound("history-length", steps)
 	pols := c20Pols()
-	ids := []PolicyID{"a", "b"}
+	// ids of different lengths whose length order and lexicographic order disagree
+	ids := []PolicyID{"b", "ab"}
 	bits := map[types.String]bool{}
 	ctx := types.RecordMap{}
 	for _, p := range pols {
@@ -129,8 +130,8 @@ func VerifC20_History() {
 				vrt.Assert("C20.map.entry", same(m[id], k))
 			}
 			m["zz"] = pols[0].pol
-			delete(m, "a")
-			vrt.Assert("C20.map.copy-is-independent", ps.Get("zz") == nil && ((ps.Get("a") != nil) == (func() bool { _, ok := model["a"]; return ok })()))
+			delete(m, "b")
+			vrt.Assert("C20.map.copy-is-independent", ps.Get("zz") == nil && ((ps.Get("b") != nil) == (func() bool { _, ok := model["b"]; return ok })()))
 		case 4: // iterate
 			n := 0
 			for id, p := range ps.All() {
